@@ -178,7 +178,8 @@ class VfArm(Arm):
                                         max_size=4), min_size=2, max_size=2))
             return {"spec": spec, "cfg": {"vectorize": vec, "inplace": True},
                     "probes": probes, "pprobes": pp}
-        return case()
+        from ..finding_predicates import repair_case
+        return case().map(lambda c: repair_case(c, ctx))
 
     def run(self, case, ctx):
         res = CaseResult()
@@ -188,7 +189,7 @@ class VfArm(Arm):
             res.excluded = ex
             return res
         rm = RefModel(spec)
-        res.labels = labels_for(spec, rm)
+        res.labels = labels_for(spec, rm) + ["repaired:" + r for r in case.get("_repaired", [])]
         n_eq = sum(len(spec["ops"][o]["eqs"]) for p, nt in spec["nodes"] for o in spec["ntypes"][nt]["ops"])
         res.nontrivial = n_eq >= 2 and bool(rm.wiring or rm.edges)
         check_vf(spec, case["cfg"], case["probes"], case["pprobes"], res)
